@@ -84,6 +84,11 @@ func (f *frame) enterLoop(li *loopInfo, b *ssa.BasicBlock, pc *Term, st State) (
 	} else if !f.inlined {
 		f.warnf("loop %d has no invariant (true assumed)", li.ord)
 	}
+	if !f.inlined {
+		if g := f.autoBound(li); g != nil {
+			f.check("invariant-entry", f.oblName(fmt.Sprintf("loop#%d/auto-bounds/entry", li.ord)), pc, g, b.Instrs[0].Pos(), nil)
+		}
+	}
 	// havoc
 	ms := c.loopMods(f.fn, li.body)
 	if ms.all {
@@ -123,6 +128,9 @@ func (f *frame) enterLoop(li *loopInfo, b *ssa.BasicBlock, pc *Term, st State) (
 			}
 		}
 	}
+	if g := f.autoBound(li); g != nil {
+		c.addHyp(Implies(pc, g))
+	}
 	return pc, st
 }
 
@@ -137,7 +145,7 @@ func clauseTag(cl *Clause, i int) string {
 func (f *frame) closeLoop(li *loopInfo, from *ssa.BasicBlock, cond *Term, st State) {
 	ls := f.loopSpec(li)
 	if ls == nil {
-		return
+		ls = &LoopSpec{}
 	}
 	b := li.header
 	idx := -1
@@ -164,6 +172,11 @@ func (f *frame) closeLoop(li *loopInfo, from *ssa.BasicBlock, cond *Term, st Sta
 		}
 		o := f.emit("invariant-preserved", f.oblName(fmt.Sprintf("loop#%d/invariant%s/preserved", li.ord, clauseTag(inv, i))), cond, g, from.Instrs[len(from.Instrs)-1].Pos(), inv)
 		_ = o
+	}
+	if !f.inlined {
+		if g := f.autoBound(li); g != nil {
+			f.emit("invariant-preserved", f.oblName(fmt.Sprintf("loop#%d/auto-bounds/preserved", li.ord)), cond, g, from.Instrs[len(from.Instrs)-1].Pos(), nil)
+		}
 	}
 	for phi, v := range saved {
 		f.vals[phi] = v
@@ -211,6 +224,7 @@ func verifyFunc(prog *Program, specs *SpecSet, sp *FuncSpec) (res *FuncResult) {
 	}
 	c := newCtx(prog, specs, mode)
 	c.curProp = sp.Property
+	c.closedHeap = wantsClosedHeap(sp)
 	res.Ctx = c
 	if sp.Flags["strings"] == "on" {
 		c.strMode = true
